@@ -51,11 +51,11 @@ def tour_nodes(ex, t): return node_ids(ex, F(t, 'Tour', 'nodes'))
 def path_nodes(ex, p): return node_ids(ex, F(p, 'Path', 'node_sequence'))
 def dist_eq(d, spec):
     if isinstance(d, Lazy): raise Unsupported('lazy distance')
-    if spec is TS.INF: return z3.BoolVal(d.variant == 1)
-    if d.variant != 0: return z3.BoolVal(False)
+    if spec is TS.INF: return d.variant == 1
+    if d.variant != 0: return False
     return d.fields[0].e == spec
 def dur_eq(d, spec):
-    if d.variant != 0: return z3.BoolVal(False)
+    if d.variant != 0: return False
     return d.fields[0].fields[0].e == spec
 def aggregates_ok(ex, net, t, nodes):
     """list of (clause, z3 Bool) comparing the cached figures of tour value t with recomputation"""
@@ -64,7 +64,7 @@ def aggregates_ok(ex, net, t, nodes):
             ('cached service distance = recomputation', dist_eq(F(t, 'Tour', 'service_distance'), ag['service_distance'])),
             ('cached dead-head distance = recomputation', dist_eq(F(t, 'Tour', 'dead_head_distance'), ag['dead_head_distance'])),
             ('cached costs = recomputation', F(t, 'Tour', 'costs').e == ag['costs']),
-            ('cached visits-maintenance flag = recomputation', F(t, 'Tour', 'visits_maintenance').e == z3.BoolVal(ag['visits_maintenance']))]
+            ('cached visits-maintenance flag = recomputation', Z(F(t, 'Tour', 'visits_maintenance').e) == z3.BoolVal(ag['visits_maintenance']))]
 def expected_aggregates(net, nodes, m):
     ag = TS.aggregates(net, nodes)
     return dict(useful_duration=mval(m, ag['useful_duration']), service_distance=mval(m, ag['service_distance']),
@@ -335,7 +335,8 @@ def all_jobs(tier, seed, props):
         for p in path_shapes(tier, t):
             if len(t['acts']) + len(p['acts']) > (3 if tier == 'quick' else 5): continue
             js.append(dict(name='insert %s' % shape_sig(t, p), func='job_insert', kwargs=dict(tier=tier, tour=t, path=p, props=props)))
-        js.append(dict(name='remove %s' % ts, func='job_remove', kwargs=dict(tier=tier, tour=t, props=props)))
+        if 'C12' in props or len(t['acts']) >= 2:
+            js.append(dict(name='remove %s' % ts, func='job_remove', kwargs=dict(tier=tier, tour=t, props=props)))
         if not t.get('dummy'):
             js.append(dict(name='new %s' % ts, func='job_new', kwargs=dict(tier=tier, tour=t, props=props)))
     if 'C09' in props:
